@@ -39,7 +39,8 @@ def reconnect_scenario(r, it, tier):
         silent = how in ("sdiscnow", "sdisc", "vanish") and r.chance(2, 3)
         if silent:                                 # the old client never answers again
             nets[(0, "s2c")] = E.Net(loss=1000)
-        sim.run(r.pick([0, 1, 3, int(3_000_000_000 // dt) + 1, int(25_000_000_000 // dt) + 1]), dt, nets)
+        sim.run(r.pick([0, 1, 3, int(3_000_000_000 // dt) + 1, int(25_000_000_000 // dt) + 1, int(25_000_000_000 // dt) + 1]) if not silent
+                else r.pick([1, int(25_000_000_000 // dt) + 1, int(25_000_000_000 // dt) + 1]), dt, nets)
         nets.pop((0, "s2c"), None)
         sim.recli(0, dict(E.DEFAULT_EP), nets)
         sim.run(r.range(5, 30), dt, nets)
